@@ -12,7 +12,7 @@ func TestProbe_PrefixPreserved(t *testing.T) {
 	for _, w := range irregular {
 		for _, variant := range []string{w, strings.ToUpper(w[:1]) + w[1:], strings.ToUpper(w)} {
 			alone := Pluralize(variant)
-			for _, pre := range []string{"old-", "Old ", "x_", "a b-", "é "} {
+			for _, pre := range []string{"old-", "Old ", "x_", "a b-", "é ", "first line\n", "a\r\n", "two\n\nlines ", "tab\t"} {
 				got := Pluralize(pre + variant)
 				if alone != variant || got != pre+variant { // only meaningful when the word is irregular for this rule set
 					if !strings.HasPrefix(got, pre) {
